@@ -172,6 +172,16 @@ def ext_submit(eng, st, recv, args, kw, node):
     """Executor.submit(f, *a): runs f(*a) exactly once (the callable's own contract gives the value) and returns a
     fresh Future holding it.  The callable must not write shared state (EFF POOL-pure), so the order is immaterial."""
     f = args[0]
+    # RNG ownership: a callable that draws random numbers and runs in a *process* pool must establish its own stream
+    # (forked workers start from a copy of the parent's generator state)
+    if is_static(f, "bound") and f.items[0].t[0] == "obj" and "self" in st.env:
+        ci_ = eng.src.resolve_class(f.items[0].t[1], eng.cur_mod.name)
+        cc_ = eng.method_contract(ci_, f.items[1]) if ci_ else None
+        if cc_ is not None and "rng" in cc_.assigns and not any("seeded_with" in e_ for _, e_ in cc_.labelled("ensures")):
+            from .types import ENUM_MEMBERS
+            mode = st.read_field(st.env["self"], "_mode")
+            if eng.feasible(st, mode.z == ENUM_MEMBERS["ModeSolver"]["PROCESS"]):
+                st.ghost["shared_stream_submit"] = f.items[1]
     val = eng.call_value(st, f, list(args[1:]), dict(kw), node)
     if val.t[0] != "obj":
         raise Unsupported("submit of a callable that does not return an object")
@@ -316,3 +326,22 @@ def lib_np_random_seed(eng, st, args, kw, node):
 
 
 LIB[("numpy.random", "seed")] = lib_np_random_seed
+
+
+def lib_np_random_randint(eng, st, args, kw, node):
+    """np.random.randint(lo, hi, size=n): n integers in [lo, hi) drawn from the global stream"""
+    lo, hi = args[0], args[1]
+    size = kw.get("size")
+    st.ghost["rng_used"] = True
+    if size is None:
+        r = eng.ctx.fresh("randint", ("int",))
+        st.assume(z3.And(r.z >= lo.z, r.z < hi.z))
+        return r
+    arr = eng.ctx.fresh_z("randints", z3.ArraySort(z3.IntSort(), z3.IntSort()))
+    k = z3.Int(eng.ctx.fresh_name("k"))
+    n = z3.If(size.z > 0, size.z, 0)
+    st.assume(z3.ForAll([k], z3.Implies(z3.And(k >= 0, k < n), z3.And(arr[k] >= lo.z, arr[k] < hi.z)), patterns=[arr[k]]))
+    return st.new_seq(("int",), "nd", z3.simplify(n), arr, "randints")
+
+
+LIB[("numpy.random", "randint")] = lib_np_random_randint
